@@ -4,6 +4,7 @@ import (
 	"errors"
 	"fmt"
 	"sort"
+	"sync"
 	"time"
 
 	"github.com/vicanso/pike/store"
@@ -16,6 +17,7 @@ import (
 // simulated restart. Every call is a scheduling point; when Faults is set the
 // answer of each call is a data choice.
 type FaultStore struct {
+	mu       sync.Mutex // a real store synchronises internally; so does this one
 	Disk     map[string]DiskRec
 	Ops      []StoreOp
 	HonorTTL bool // expire records like badger/redis do (virtual clock); false = lazy store (mongo-like)
@@ -103,6 +105,12 @@ func (f *FaultStore) Get(key []byte) ([]byte, error) {
 		f.Hook("get", key)
 	}
 	fl := f.fault("get", key)
+	now := int64(0)
+	if f.HonorTTL {
+		now = vtime.Now().Unix()
+	}
+	f.mu.Lock()
+	defer f.mu.Unlock()
 	o := StoreOp{Op: "get", Key: string(key), Fault: fl.Name}
 	if fl.Err != nil {
 		o.Err = fl.Err.Error()
@@ -110,7 +118,7 @@ func (f *FaultStore) Get(key []byte) ([]byte, error) {
 		return nil, fl.Err
 	}
 	rec, ok := f.Disk[string(key)]
-	if ok && f.HonorTTL && rec.ExpireAt != 0 && vtime.Now().Unix() >= rec.ExpireAt {
+	if ok && f.HonorTTL && rec.ExpireAt != 0 && now >= rec.ExpireAt {
 		ok = false
 	}
 	if !ok || fl.NotFound {
@@ -133,6 +141,9 @@ func (f *FaultStore) Set(key, data []byte, ttl time.Duration) error {
 		f.Hook("set", key)
 	}
 	fl := f.fault("set", key)
+	now := vtime.Now().Unix()
+	f.mu.Lock()
+	defer f.mu.Unlock()
 	o := StoreOp{Op: "set", Key: string(key), Data: append([]byte(nil), data...), TTL: ttl, Fault: fl.Name}
 	if fl.Err != nil {
 		o.Err = fl.Err.Error()
@@ -142,10 +153,10 @@ func (f *FaultStore) Set(key, data []byte, ttl time.Duration) error {
 	if !fl.Drop {
 		rec := DiskRec{Data: append([]byte(nil), data...)}
 		if ttl > 0 {
-			rec.ExpireAt = vtime.Now().Unix() + int64(ttl/time.Second)
+			rec.ExpireAt = now + int64(ttl/time.Second)
 		} else {
 			// badger: a non-positive TTL expires at once; keep the record invisible
-			rec.ExpireAt = vtime.Now().Unix()
+			rec.ExpireAt = now
 		}
 		prev, ex := f.Disk[string(key)]
 		f.Journal = append(f.Journal, JournalEntry{Op: "set", Key: string(key), Prev: prev, Existed: ex, New: rec})
@@ -161,6 +172,8 @@ func (f *FaultStore) Delete(key []byte) error {
 		f.Hook("delete", key)
 	}
 	fl := f.fault("delete", key)
+	f.mu.Lock()
+	defer f.mu.Unlock()
 	o := StoreOp{Op: "delete", Key: string(key), Fault: fl.Name}
 	if fl.Err != nil {
 		o.Err = fl.Err.Error()
